@@ -13,6 +13,7 @@
 EXTENDS Integers, Sequences, TLC, Json, CSV
 
 CONSTANTS Sizes, OutFile,
+          DepthOnly, \* TRUE: only the shapes of DepthBounded (C11)
           Exps      \* exponents e for the shapes whose parameter is a count of about 2^e
 
 Shapes == {"nest-bind",        \* {{{...}}} bind          nesting = size
@@ -43,15 +44,24 @@ Shapes == {"nest-bind",        \* {{{...}}} bind          nesting = size
            "t1-seac-self",     \* Type 1 font: a composite of itself, two composites of each other
            "alias-cycle",      \* /a {a} 0 get def a : a name whose value is the executable name itself (budget must strike)
            "alias-cycle-2",    \* /a {b} 0 get def /b {a} 0 get def b
+           "xname-if-recursion",    \* /f { true { f } 0 get if 1 } def f : an executable name where if expects a procedure
+           "xname-ifelse-recursion",\* /f { false { } { f } 0 get ifelse 1 } def f
+           "xname-for-recursion",   \* /f { 0 1 0 { f } 0 get for 1 } def f
            "t1-seac-codes"}    \* Type 1 fonts whose seac names unassigned codes of StandardEncoding, with every encoding form
 
 \* shapes parameterised by an exponent e: the counts 2^e - 1, 2^e and -(2^e) in every place of the input that
 \* announces how many entries follow (a reader must not believe them: no allocation by announcement)
 ExpShapes == {"afm-counts"}    \* AFM: StartCharMetrics / StartKernPairs / StartKernPairs0 / StartKernPairs1 / StartTrackKern / StartComposites n
 
+\* recursion that is not in tail position: every level costs a level of nesting and a handful of operations, so the
+\* nesting limit ends the run after (limit x a handful) operations, long before a budget of 10^6 does (C11: the
+\* limits hold whatever kind of object a control operator is given to execute)
+DepthBounded == {"self-proc-nontail", "exec-chain", "xname-if-recursion", "xname-ifelse-recursion", "xname-for-recursion"}
+
 VARIABLE pick
 Init == pick = <<>>
-Next == pick = <<>> /\ (\/ \E sh \in Shapes, n \in Sizes : pick' = <<sh, n>>
-                       \/ \E sh \in ExpShapes, e \in Exps : pick' = <<sh, e>>)
-Emit == pick # <<>> => CSVWrite("%1$s", <<ToJson([shape |-> pick[1], size |-> pick[2], expect |-> "returns"])>>, OutFile)
+Next == /\ pick = <<>>
+        /\ \/ \E sh \in (IF DepthOnly THEN DepthBounded ELSE Shapes), n \in Sizes : pick' = <<sh, n>>
+           \/ (~DepthOnly /\ \E sh \in ExpShapes, e \in Exps : pick' = <<sh, e>>)
+Emit == pick # <<>> => CSVWrite("%1$s", <<ToJson([shape |-> pick[1], size |-> pick[2], expect |-> IF pick[1] \in DepthBounded THEN "depth-limit" ELSE "returns"])>>, OutFile)
 =============================================================================
